@@ -16,6 +16,8 @@ Fixpoint cexpr_eqb (a b : cexpr) : bool :=
   | CPlus a1 a2, CPlus b1 b2 => cexpr_eqb a1 b1 && cexpr_eqb a2 b2
   | _, _ => false
   end.
+(* the expressions are sums of the option and constants: two of them denote the same capacity iff they agree at 0 and at 1 *)
+Definition cexpr_same (a b : cexpr) : bool := Nat.eqb (ceval a 0) (ceval b 0) && Nat.eqb (ceval a 1) (ceval b 1).
 Inductive guard := GChanged | GChangedOrNil.    (* when Reset rebuilds the pool: option changed / or pool still nil *)
 Inductive lop :=
 | OIfInactiveReset | OTakePoolCopyFields | OCloneDev | OSendMesg           (* OnMesg *)
@@ -86,7 +88,7 @@ Definition wf_lspec (ls : lspec_t) : bool :=
   lops_eqb (ls_Reset ls) [OCallClose; OSavePrev; ODefaultOptions; OApplyOptions; ORebuildPool GChanged CBuf CBuf; OCallReset] &&
   lops_eqb (ls_new ls) [ONewZero; OCallResetPub; OReturnSelf] &&
   ls_process_std ls &&
-  (let '(_, cap, fill) := pool_rebuild ls in cexpr_eqb cap fill).                                (* the pool is created full *)
+  (let '(_, cap, fill) := pool_rebuild ls in cexpr_same cap fill).                                (* the pool is created full *)
 
 (* ---- the protocol *)
 Section Listener.
